@@ -229,6 +229,44 @@ def mod_sign_ok(c):
     return (r == 0 or (r > 0) == (y > 0)) and abs(r) <= abs(y)
 
 
+def run_harness(ctx, cmd, rep):
+    """Run the harness; if the process dies (a fatal runtime error cannot be recovered in Go),
+    run it again announcing each case first, so that the crashing input becomes the replay."""
+    import json
+    p = ctx.sh(cmd, timeout=600)
+    lines = p.stdout.splitlines()
+    if p.returncode != 0:
+        ctx.log("harness (%s) died with rc=%s; tracing" % (rep, p.returncode))
+        q = ctx.sh(cmd + ["-trace"], timeout=900)
+        lines = q.stdout.splitlines()
+        last = None
+        for line in reversed(lines):
+            if line.startswith('{"k":"pre"'):
+                try:
+                    last = json.loads(line)
+                except ValueError:
+                    continue
+                break
+        if q.returncode != 0 and last is not None:
+            c = {"k": last["r"], "op": last["op"], "a": last["a"], "r": "crash", "w": "?", "rep": rep,
+                 "stderr": q.stderr[:600]}
+            ctx.finding("crash:%s:%s" % (last["r"], last["op"]),
+                        "%s with operands %s (%s representation): the host process died (%s)" % (
+                            last["op"], last["a"], rep, q.stderr.strip().splitlines()[0][:160] if q.stderr.strip() else "no message"), c)
+        elif q.returncode != 0:
+            from .lib import HarnessError
+            raise HarnessError("harness failed rc=%s: %s" % (q.returncode, q.stderr[-2000:]))
+    out = []
+    for line in lines:
+        line = line.strip()
+        if line.startswith("{") and not line.startswith('{"k":"pre"'):
+            try:
+                out.append(json.loads(line))
+            except ValueError:
+                pass    # the line being written when the process died
+    return out
+
+
 def run(ctx):
     ctx.proofs()
     ok, log = ctx.coq_make(["C10/Cases.vo"])
@@ -245,7 +283,8 @@ def run(ctx):
     pools = {}      # (rep, kind) -> list of (term, case)
     seen = set()
     for rep in ("posix", "fallback"):
-        cases = ctx.jsonl([hx, "-seed", str(ctx.seed), "-n", str(nrand), "-rep", rep] + (["-small"] if quick else []), timeout=600)
+        cmd = [hx, "-seed", str(ctx.seed), "-n", str(nrand), "-rep", rep] + (["-small"] if quick else [])
+        cases = run_harness(ctx, cmd, rep)
         ctx.log("harness (%s representation) produced %d observations" % (rep, len(cases)))
         for c in cases:
             if c["k"] == "summary":
